@@ -37,7 +37,10 @@ pub const MAX_KEPT: usize = 200_000;
 
 impl Stats {
     pub fn new(prop: &str, tier: &str) -> Stats {
-        let seed = std::env::var("VERIF_SEED").ok().and_then(|s| s.parse().ok()).unwrap_or(1);
+        let seed = std::env::var("VERIF_SEED")
+            .ok()
+            .and_then(|s| s.parse().ok())
+            .unwrap_or(1);
         Stats {
             prop: prop.into(),
             tier: tier.into(),
@@ -67,13 +70,20 @@ impl Stats {
     }
     pub fn add(&self, name: &str, n: u64) {
         if n > 0 {
-            *self.counters.lock().unwrap().entry(name.into()).or_default() += n;
+            *self
+                .counters
+                .lock()
+                .unwrap()
+                .entry(name.into())
+                .or_default() += n;
         }
     }
     pub fn merge(&self, local: &Local) {
         self.states.fetch_add(local.states, Ordering::Relaxed);
-        self.nontrivial.fetch_add(local.nontrivial, Ordering::Relaxed);
-        self.transitions.fetch_add(local.transitions, Ordering::Relaxed);
+        self.nontrivial
+            .fetch_add(local.nontrivial, Ordering::Relaxed);
+        self.transitions
+            .fetch_add(local.transitions, Ordering::Relaxed);
         {
             let mut c = self.counters.lock().unwrap();
             for (k, v) in &local.counters {
@@ -90,7 +100,8 @@ impl Stats {
             }
         }
         if !local.viol.is_empty() {
-            self.viol_total.fetch_add(local.viol.len() as u64, Ordering::Relaxed);
+            self.viol_total
+                .fetch_add(local.viol.len() as u64, Ordering::Relaxed);
             let mut v = self.viol.lock().unwrap();
             for x in &local.viol {
                 if v.len() < MAX_KEPT {
@@ -110,7 +121,11 @@ impl Stats {
         self.viol_total.fetch_add(1, Ordering::Relaxed);
         let mut v = self.viol.lock().unwrap();
         if v.len() < MAX_KEPT {
-            v.push(Violation { clause: clause.into(), case, key });
+            v.push(Violation {
+                clause: clause.into(),
+                case,
+                key,
+            });
         }
     }
     pub fn sample(&self, v: Value) {
@@ -151,7 +166,11 @@ impl Local {
         }
     }
     pub fn violation(&mut self, clause: &str, key: String, case: Value) {
-        self.viol.push(Violation { clause: clause.into(), case, key });
+        self.viol.push(Violation {
+            clause: clause.into(),
+            case,
+            key,
+        });
     }
 }
 
@@ -167,7 +186,10 @@ pub struct Known {
 
 pub fn load_known() -> Known {
     let path = format!("{VERIF_DIR}/known_findings.jsonl");
-    let mut k = Known { known: BTreeMap::new(), fixed: vec![] };
+    let mut k = Known {
+        known: BTreeMap::new(),
+        fixed: vec![],
+    };
     if let Ok(s) = std::fs::read_to_string(&path) {
         for line in s.lines() {
             let line = line.trim();
@@ -184,7 +206,10 @@ pub fn load_known() -> Known {
             match v["status"].as_str() {
                 Some("known") => {
                     k.known.insert(
-                        (v["property"].as_str().unwrap_or("").into(), v["key"].as_str().unwrap_or("").into()),
+                        (
+                            v["property"].as_str().unwrap_or("").into(),
+                            v["key"].as_str().unwrap_or("").into(),
+                        ),
                         v["what"].as_str().unwrap_or("").into(),
                     );
                 }
@@ -211,7 +236,13 @@ fn fnv(s: &str) -> u64 {
 pub type ReplayFn = dyn Fn(&Value) -> Vec<String>;
 
 /// Writes evidence, prints verdict lines and returns the exit code (0 held, 1 violation, 2 machinery).
-pub fn finish(st: &Stats, rule: &str, assumptions: &[&str], exhaustive: bool, replay: Option<&ReplayFn>) -> i32 {
+pub fn finish(
+    st: &Stats,
+    rule: &str,
+    assumptions: &[&str],
+    exhaustive: bool,
+    replay: Option<&ReplayFn>,
+) -> i32 {
     let known = load_known();
     let viol = st.viol.lock().unwrap();
     let total = st.viol_total.load(Ordering::Relaxed);
@@ -233,9 +264,16 @@ pub fn finish(st: &Stats, rule: &str, assumptions: &[&str], exhaustive: bool, re
         use std::io::Write;
         let mut seen: std::collections::BTreeMap<String, (Vec<String>, Value)> = Default::default();
         for v in &unlisted {
-            seen.entry(v.key.clone()).or_insert((vec![], v.case.clone())).0.push(v.clause.clone());
+            seen.entry(v.key.clone())
+                .or_insert((vec![], v.case.clone()))
+                .0
+                .push(v.clause.clone());
         }
-        let mut f = std::fs::OpenOptions::new().create(true).append(true).open(&path).expect("candidates file");
+        let mut f = std::fs::OpenOptions::new()
+            .create(true)
+            .append(true)
+            .open(&path)
+            .expect("candidates file");
         for (k, (cls, case)) in seen {
             let mut cls = cls;
             cls.sort();
@@ -265,7 +303,16 @@ pub fn finish(st: &Stats, rule: &str, assumptions: &[&str], exhaustive: bool, re
                         "MACHINERY: violation did not reproduce on replay round {round}: clause={} key={} got={:?}",
                         v.clause, v.key, got
                     );
-                    write_evidence(st, rule, assumptions, false, total, &known_hit, &by_clause, Some("non-reproducible violation"));
+                    write_evidence(
+                        st,
+                        rule,
+                        assumptions,
+                        false,
+                        total,
+                        &known_hit,
+                        &by_clause,
+                        Some("non-reproducible violation"),
+                    );
                     return 2;
                 }
             }
@@ -276,14 +323,21 @@ pub fn finish(st: &Stats, rule: &str, assumptions: &[&str], exhaustive: bool, re
             o.insert("key".into(), json!(v.key));
             o.insert("flavour".into(), json!(crate::run::flavour()));
         }
-        let name = format!("{}-{:016x}.json", st.prop, fnv(&format!("{}|{}|{}", v.key, v.clause, crate::run::flavour())));
+        let name = format!(
+            "{}-{:016x}.json",
+            st.prop,
+            fnv(&format!("{}|{}|{}", v.key, v.clause, crate::run::flavour()))
+        );
         let path = format!("{VERIF_DIR}/replays/{name}");
         let _ = std::fs::create_dir_all(format!("{VERIF_DIR}/replays"));
         if let Err(e) = std::fs::write(&path, serde_json::to_string_pretty(&case).unwrap()) {
             println!("MACHINERY: cannot write replay file {path}: {e}");
             return 2;
         }
-        println!("VIOLATION property={} replay={} clause={} key={}", st.prop, path, v.clause, v.key);
+        println!(
+            "VIOLATION property={} replay={} clause={} key={}",
+            st.prop, path, v.clause, v.key
+        );
         printed += 1;
         code = 1;
     }
@@ -300,7 +354,16 @@ pub fn finish(st: &Stats, rule: &str, assumptions: &[&str], exhaustive: bool, re
     } else if dropped > 0 {
         code = 1;
     }
-    write_evidence(st, rule, assumptions, exhaustive, total, &known_hit, &by_clause, None);
+    write_evidence(
+        st,
+        rule,
+        assumptions,
+        exhaustive,
+        total,
+        &known_hit,
+        &by_clause,
+        None,
+    );
     if code == 0 {
         println!(
             "OK property={} tier={} flavour={} states={} transitions={} known_findings_hit={} wall_s={:.1}",
@@ -334,9 +397,15 @@ fn write_evidence(
     cov.insert("transitions".into(), json!(transitions));
     cov.insert("traces_validated_against_impl".into(), json!(transitions));
     cov.insert("evaluations".into(), json!(transitions));
-    cov.insert("distinct_nontrivial".into(), json!(st.nontrivial.load(Ordering::Relaxed)));
+    cov.insert(
+        "distinct_nontrivial".into(),
+        json!(st.nontrivial.load(Ordering::Relaxed)),
+    );
     cov.insert("rule".into(), json!(rule));
-    cov.insert("exhaustive".into(), json!(exhaustive && st.caps.lock().unwrap().is_empty()));
+    cov.insert(
+        "exhaustive".into(),
+        json!(exhaustive && st.caps.lock().unwrap().is_empty()),
+    );
     cov.insert("families".into(), json!(*st.families.lock().unwrap()));
     cov.insert("samples".into(), json!(*st.samples.lock().unwrap()));
     cov.insert("counters".into(), json!(*st.counters.lock().unwrap()));
@@ -346,7 +415,10 @@ fn write_evidence(
     cov.insert("build_flavour".into(), json!(crate::run::flavour()));
     cov.insert(
         "known_findings_hit".into(),
-        json!(known_hit.iter().map(|(k, (w, n))| json!({"key": k, "what": w, "clauses_failing": n})).collect::<Vec<_>>()),
+        json!(known_hit
+            .iter()
+            .map(|(k, (w, n))| json!({"key": k, "what": w, "clauses_failing": n}))
+            .collect::<Vec<_>>()),
     );
     cov.insert("unlisted_violations_by_clause".into(), json!(by_clause));
     if let Some(m) = machinery {
@@ -364,7 +436,8 @@ fn write_evidence(
         "violations": unlisted,
         "violations_including_known": total_viol,
     });
-    let dir = std::env::var("VERIF_EVIDENCE_DIR").unwrap_or_else(|_| format!("{VERIF_DIR}/evidence"));
+    let dir =
+        std::env::var("VERIF_EVIDENCE_DIR").unwrap_or_else(|_| format!("{VERIF_DIR}/evidence"));
     let _ = std::fs::create_dir_all(&dir);
     let suffix = std::env::var("VERIF_EVIDENCE_SUFFIX").unwrap_or_default();
     let path = format!("{dir}/{}{}.json", st.prop, suffix);
